@@ -42,6 +42,11 @@ open GoldilocksVerif
 @[inline] def unpackhi_pd (a b : V4) : V4 := ⟨a.l1, b.l1, a.l3, b.l3⟩
 @[inline] def set_epi64x (e3 e2 e1 e0 : BitVec 64) : V4 := ⟨e0, e1, e2, e3⟩
 @[inline] def set1_epi64x (e : BitVec 64) : V4 := ⟨e, e, e, e⟩
+/-- `_mm256_extract_epi64` (`__builtin_ia32_vec_ext_v4di`): the 64-bit element `k` (the immediate is taken mod 4).
+  Not used by the pinned source; present so that a rewrite reading lanes straight from a register stays translatable. -/
+@[inline] def extract_epi64 (a : V4) (k : Nat) : BitVec 64 :=
+  match k % 4 with
+  | 0 => a.l0 | 1 => a.l1 | 2 => a.l2 | _ => a.l3
 def load (r : Region) : V4 := ⟨r 0, r 1, r 2, r 3⟩
 def store (r : Region) (v : V4) : Region :=
   ⟨fun j => if j = 0 then v.l0 else if j = 1 then v.l1 else if j = 2 then v.l2 else if j = 3 then v.l3 else r j⟩
